@@ -1087,6 +1087,14 @@ func (s *SecureChannel) sendAsyncWithTimeout(
 	instance.Lock()
 	defer instance.Unlock()
 
+	// do not take a sequence number for a request that will not be sent:
+	// the numbers on the wire must not have gaps
+	select {
+	case <-ctx.Done():
+		return nil, ctx.Err()
+	default:
+	}
+
 	m, err := instance.newRequestMessage(req, reqID, authToken, timeout)
 	if err != nil {
 		return nil, err
@@ -1116,11 +1124,13 @@ func (s *SecureChannel) sendAsyncWithTimeout(
 	}
 
 	for i, chunk := range chunks {
-		select {
-		case <-ctx.Done():
-			s.popHandler(reqID)
-			return nil, ctx.Err()
-		default:
+		if i > 0 {
+			select {
+			case <-ctx.Done():
+				s.popHandler(reqID)
+				return nil, ctx.Err()
+			default:
+			}
 		}
 		if i > 0 { // fix sequence number on subsequent chunks
 			number := instance.nextSequenceNumber()
